@@ -11,7 +11,7 @@ import (
 func init() {
 	register(&propInfo{
 		id: "C13", fn: checkC13, multiConfig: true,
-		explanation: "(r1) in tread.handle the length of the slice handed to the backend ReadAt (and to the xattr copy) is a value clamped — or guarded — by a bound derived from the negotiated size (cs.messageSize, or the length of the msize-sized pool buffer) minus at least headerLength + FixedSize(rread); that constant (11) is computed from the codec by the layout extractor, not written in the checker; a bound against the 4 MiB constant alone does not discharge this; the reply's Data is the prefix [:n] of that buffer with n the count returned for that slice; (r2) the Count given to the backend Readdir and to the rreaddir reply (whose encoder enforces it as the payload limit, C01.r9) is bounded the same way; (r3) no other reply type carries an out-of-band payload; (r4) client sizing: every store to c.payloadSize is roundDown(c.messageSize − S, 512) with S statically evaluated (registry.largestFixedSize is computed from the 65 layouts: 153) to at least headerLength + FixedSize(twrite) = 23 and headerLength + FixedSize(rread) = 11, the first store comes after the options were applied, the store after negotiation uses the adopted msize, roundDown never returns more than its argument, and both WithMessageSize and the adoption path reject sizes ≤ largestFixedSize (no unsigned underflow); (r5) requests are chunked by that payload size (C11.r1–r2). (r2, continued) rreaddir.encode emits whole entries within Count only (the rule of C19.r1); (r5) the limit in force is the announced one: tversion.handle stores cs.messageSize and rebuilds the buffer pools on the accepting path only (the rule of C12.r2).",
+		explanation: "(r1) in tread.handle the length of the slice handed to the backend ReadAt (and to the xattr copy) is a value clamped — or guarded — by a bound derived from the negotiated size (cs.messageSize, or the length of the msize-sized pool buffer) minus at least headerLength + FixedSize(rread); that constant (11) is computed from the codec by the layout extractor, not written in the checker; a bound against the 4 MiB constant alone does not discharge this; the reply's Data is the prefix [:n] of that buffer with n the count returned for that slice; (r2) the Count given to the backend Readdir and to the rreaddir reply (whose encoder enforces it as the payload limit, C01.r9) is bounded the same way; (r3) no other reply type carries an out-of-band payload; (r4) client sizing: every store to c.payloadSize is roundDown(c.messageSize − S, 512) with S statically evaluated (registry.largestFixedSize is computed from the 65 layouts: 153) to at least headerLength + FixedSize(twrite) = 23 and headerLength + FixedSize(rread) = 11, the first store comes after the options were applied, the store after negotiation uses the adopted msize, roundDown never returns more than its argument, and both WithMessageSize and the adoption path reject sizes ≤ largestFixedSize (no unsigned underflow); (r5) requests are chunked by that payload size (C11.r1–r2). (r2, continued) rreaddir.encode emits whole entries within Count only (the rule of C19.r1); (r5) the limit in force is the announced one: tversion.handle stores cs.messageSize and rebuilds the buffer pools on the accepting path only (the rule of C12.r2). (r5, continued) cs.messageSize holds the announced (clamped) msize, not the proposal (the rule of C12.r3); (r6) the client does not solicit replies above msize: the single-message read/write primitives are reached only through the chunking loop (the rule of C11.r1).",
 		assumptions: []string{"a backend's ReadAt returns n ≤ len(p) (io.ReaderAt contract)", "frame sizes for concrete directory contents are runtime values; only the limit given to the encoder is decided"},
 	})
 }
@@ -583,7 +583,11 @@ func checkC13(r *Run) {
 	if r.borrowed == nil {
 		// r5: the limit the replies are clamped against is the one that was announced: a
 		// refused Tversion does not change cs.messageSize (the rule of C12.r2)
-		r.borrow(checkC12, map[string]string{"r2": "r5"})
+		// ... and cs.messageSize holds the announced (clamped) value, not the proposal (C12.r3)
+		r.borrow(checkC12, map[string]string{"r2": "r5", "r3": "r5"})
+		// r6: the client does not solicit a reply above msize: the single-message read and write
+		// primitives are reached only through the chunking loop (the rule of C11.r1)
+		r.borrow(checkC11, map[string]string{"r1": "r6"})
 		// r2 (continued): rreaddir.encode cuts the listing to whole entries within Count
 		// (the rule of C19.r1) - Count is what the handler clamped
 		r.borrow(checkC19, map[string]string{"r1": "r2"})
